@@ -248,6 +248,28 @@ func (e *hdEnv) checkDerivation(c hdCase) {
 		viol(run, "hd-derive-mismatch:"+class, c.label, w(map[string]any{"observed_key": hex.EncodeToString(got)}))
 		return
 	}
+	// what a derivation answers does not depend on what was derived before: the same mnemonic right away with another
+	// BIP-39 passphrase (a second wallet on the same words), then the first one again
+	if len(c.label) > 0 && c.label[len(c.label)-1]%4 == 1 {
+		pass2 := c.pass + "2"
+		if c.pass != "" && len(c.label)%2 == 0 {
+			pass2 = ""
+		}
+		keys2, err2 := refPrefixKeys(bip39.NewSeed(c.mnemonic, pass2), c.comps)
+		if err2 == nil {
+			got2, e2 := evDerive(c.mnemonic, pass2, path)
+			if e2 != nil || !bytes.Equal(got2, keys2[n]) {
+				viol(run, "hd-derive-mismatch:same-mnemonic-other-passphrase-right-after", c.label, w(map[string]any{"second_passphrase": pass2,
+					"observed_key": hex.EncodeToString(got2), "reference_key_for_second_passphrase": hex.EncodeToString(keys2[n]), "error": fmt.Sprint(e2)}))
+				return
+			}
+			if got3, e3 := evDerive(c.mnemonic, c.pass, path); e3 != nil || !bytes.Equal(got3, want) {
+				viol(run, "hd-derive-mismatch:first-passphrase-again", c.label, w(map[string]any{"observed_key": hex.EncodeToString(got3), "error": fmt.Sprint(e3)}))
+				return
+			}
+			run.Count("hd.same-mnemonic-two-passphrases-in-a-row", 1)
+		}
+	}
 	// the wallet address of the derived key, against btcec + keccak on the reference key
 	_, refPub := btcec.PrivKeyFromBytes(want)
 	wantAddr, _ := independentAddress(refPub.SerializeCompressed())
